@@ -22,6 +22,12 @@ type ForceCase struct {
 	FileDep []bool   `json:"file_dep"` // per task
 	Via     string   `json:"via"`      // "name": spok --force t0 ; "default": spok --force ; "clean": spok --clean --force
 	Extra   []string `json:"extra"`    // extra flags on the forced run (--json, --quiet)
+	// The second half of the property: in.txt is optionally edited before the forced run
+	// (EditBefore) and put back after it (RevertAfter), the cache is optionally read-only while the
+	// forced run lasts (RO: "file" or "dir"), then the same selection is run once more without --force.
+	EditBefore  bool   `json:"edit_before,omitempty"`
+	RevertAfter bool   `json:"revert_after,omitempty"`
+	RO          string `json:"ro,omitempty"`
 }
 
 var forceNames = []string{"alpha", "bravo", "charlie"}
@@ -45,6 +51,11 @@ func genForceBody(t *rapid.T) ForceCase {
 	}
 	c.Via = rapid.SampledFrom([]string{"name", "default", "clean", "default", "clean"}).Draw(t, "via")
 	c.Extra = rapid.SampledFrom([][]string{nil, nil, {"--json"}, {"--quiet"}}).Draw(t, "extra")
+	c.EditBefore = rapid.Bool().Draw(t, "edit_before")
+	c.RevertAfter = rapid.Bool().Draw(t, "revert_after")
+	if rapid.IntRange(0, 3).Draw(t, "ro") == 0 {
+		c.RO = rapid.SampledFrom([]string{"file", "dir"}).Draw(t, "ro_kind")
+	}
 	return c
 }
 
@@ -112,10 +123,68 @@ func execForce(s *ev.Shard, b *sandbox.Box, c ForceCase) *rp.Fail {
 		return &rp.Fail{Sig: "valid-run-failed", Size: size, Msg: fmt.Sprintf("spokfile:\n%s`spok %s` failed: %s", src, strings.Join(sel, " "), sandbox.Strip(r.Stderr))}
 	}
 	_ = os.Remove(logPath)
+	content := "input"
+	lastOn := map[int]string{} // per task: content of in.txt at its last completed run
+	for i := range c.closure() {
+		lastOn[i] = content
+	}
+	if c.EditBefore {
+		content = "edited"
+		if err := sandbox.Write(b.Proj, "in.txt", content); err != nil {
+			return &rp.Fail{Sig: "harness", Msg: err.Error()}
+		}
+		_ = b.Own()
+	}
+	cacheDir := filepath.Join(b.Proj, ".spok")
+	switch c.RO {
+	case "file":
+		_ = os.Chmod(filepath.Join(cacheDir, "cache.json"), 0o444)
+	case "dir":
+		_ = os.Chmod(cacheDir, 0o555)
+	}
 	args := append(append([]string{"--force"}, c.Extra...), sel...)
 	r := b.Run(b.Proj, env, runTimeout, args...)
+	if c.RO != "" {
+		_ = os.Chmod(cacheDir, 0o755)
+		_ = os.Chmod(filepath.Join(cacheDir, "cache.json"), 0o644)
+	}
 	log := readLog(logPath)
-	desc := fmt.Sprintf("spokfile:\n%safter one successful `spok %s`: `spok %s` (exit %d, log %v)", src, strings.Join(sel, " "), strings.Join(args, " "), r.Exit, log)
+	for i := range c.closure() {
+		if contains(log, fmt.Sprintf("ran%d", i)) {
+			lastOn[i] = content
+		}
+	}
+	desc := fmt.Sprintf("spokfile:\n%safter one successful `spok %s`%s: `spok %s`%s (exit %d, log %v)", src, strings.Join(sel, " "), map[bool]string{true: " and an edit of in.txt"}[c.EditBefore], strings.Join(args, " "), map[string]string{"file": " with .spok/cache.json read-only", "dir": " with .spok read-only"}[c.RO], r.Exit, log)
+	// afterwards: in.txt optionally put back, then the same selection without --force. Whatever the
+	// forced run did or could not do, a task is only skipped on the inputs it last completed on
+	later := func() *rp.Fail {
+		if c.RevertAfter && content != "input" {
+			content = "input"
+			if err := sandbox.Write(b.Proj, "in.txt", content); err != nil {
+				return &rp.Fail{Sig: "harness", Msg: err.Error()}
+			}
+			_ = b.Own()
+		}
+		_ = os.Remove(logPath)
+		r3 := b.Run(b.Proj, env, runTimeout, sel...)
+		log3 := readLog(logPath)
+		if r3.Exit != 0 {
+			return &rp.Fail{Sig: "valid-run-failed", Size: size, Msg: fmt.Sprintf("%s; then `spok %s` failed: %s", desc, strings.Join(sel, " "), sandbox.Strip(r3.Stderr))}
+		}
+		for i := range c.closure() {
+			if c.FileDep[i] && !contains(log3, fmt.Sprintf("ran%d", i)) && lastOn[i] != content {
+				return &rp.Fail{Sig: "wrong-skip-after-force", Size: size, Msg: fmt.Sprintf("%s; then (in.txt = %q) `spok %s` (log %v): task %s was skipped although it last completed on in.txt = %q", desc, content, strings.Join(sel, " "), log3, c.name(i), lastOn[i])}
+			}
+		}
+		return nil
+	}
+	if r.Exit != 0 && c.RO != "" && strings.Contains(strings.ToLower(sandbox.Strip(r.Stderr)), "cache") {
+		// spok refused to go on without a writable cache: an explicit error, the forced run did not happen
+		if s != nil {
+			s.Class("forced_run_refused_unwritable_cache")
+		}
+		return later()
+	}
 	if r.Exit != 0 {
 		return &rp.Fail{Sig: "valid-run-failed", Size: size, Msg: desc + ": failed: " + sandbox.Strip(r.Stderr)}
 	}
@@ -136,14 +205,20 @@ func execForce(s *ev.Shard, b *sandbox.Box, c ForceCase) *rp.Fail {
 			}
 		}
 	}
+	if f := later(); f != nil {
+		return f
+	}
 	if s != nil {
 		s.Class("forced_via_" + c.Via)
+		if c.EditBefore && c.RevertAfter {
+			s.Class("forced_on_edit_then_reverted")
+		}
 		anyCached := false
 		for i := range c.closure() {
 			anyCached = anyCached || c.FileDep[i]
 		}
 		if anyCached {
-			s.NonTrivial("bin:" + src + strings.Join(args, " "))
+			s.NonTrivial("bin:" + src + strings.Join(args, " ") + fmt.Sprint(c.EditBefore, c.RevertAfter, c.RO))
 		}
 	}
 	return nil
